@@ -386,6 +386,40 @@ float32[<3] vf32
 uint16[<=300] big16
 @sealed
 ''',
+    'cov/NarrowArr.1.0.dsdl': '''# fixed and variable arrays of narrow elements, each starting byte aligned
+uint4[3] a
+void4
+uint2[5] b
+void6
+uint6[5] c
+void2
+int4[3] d
+void4
+uint1[9] e
+void7
+uint7[9] f
+void1
+int3[9] g
+void5
+truncated uint5[3] h
+void1
+uint4[<=3] va
+void4
+uint2[<=5] vb
+void6
+int6[<=5] vc
+void2
+uint12[3] w12
+void4
+int20[3] w20
+void4
+float16[3] f16
+uint3[2] u32
+void2
+bool[3] b3
+void5
+@sealed
+''',
     'cov/LongArr.1.0.dsdl': 'uint8[<=256] a\nuint8[<=70000] b\nbool[<=1000] c\n@sealed\n',
     'cov/Inner.1.0.dsdl': 'uint5 a\nint11 b\nbool[<=3] c\n@sealed\n',
     'cov/Outer.1.0.dsdl': '''Inner.1.0 one
